@@ -108,6 +108,9 @@ def run(ctx, config='rel-all'):
     # ---- R9 no mutating method of Box lost its body
     from . import helpers as _helpers
     _helpers.check_effect(ctx, config, 'R9', ('src/boxed.rs',))
+    # ---- R10 conversions from iterators take every item the iterator yields: a size_hint may size a reservation only
+    from . import hinttaint
+    hinttaint.check(ctx, db, 'R10', ('src/boxed.rs', 'src/collections/'))
     # ---- R1 gating
     dc = [b for b in db.fn_bodies() if b['meta'].get('name') == 'downcast' and (b['meta'].get('impl_adt') or '').endswith('boxed::Box')]
     ctx.floor('R1.downcast', len(dc), 2, 'Box::downcast (dyn Any, dyn Any + Send)')
